@@ -92,7 +92,11 @@ fn run_sequence_from(seq: &[Op], primed: Option<usize>, ctx: &WorkerCtx) -> Exec
             }
             settle_local(&lw.w, &probe).await;
         }
+        // in histories of even length every live process's handle is inspected (links, monitors) after each operation:
+        // looking at a process must not change what happens when it terminates
+        let inspect = seq.len() % 2 == 0 && seq.iter().any(|o| matches!(o, Op::Link(..) | Op::Monitor(..)));
         for (pos, op) in seq.iter().enumerate() {
+            if inspect { for p in &pids { if let Some(h) = node.registry().get(p).await { let _ = h.get_links().await; let _ = h.get_monitors().await; } } }
             let via_registry = primed.map(|flip| (pos + flip) % 2 == 1).unwrap_or(false);
             n += 1;
             res.steps += 1;
